@@ -23,7 +23,7 @@ RULE = (
     "Hypothesis-generated cases per sketch class (5 classes): random configuration (width/depth 1 allowed; log max_count in {300,1000,70000,1e6,"
     "2^32-1,2^40}, num_reserved in {0,1,3,15,100,1023}; heavy-hitter max_key_len 1..16, phi None/0.01/0.5/1.0; HyperLogLog p 7..16 with seeds from "
     "{0,1,2^32-1,2^32,2^53+1,2^63,2^63+12345,2^64-1,any}), a random history (adds with multiplicities, list/dict/ngram updates, n_records set to a "
-    "generated value), then chains of up to 3 rounds: save -> load (class loader, or countmin.load for count-min; shared_memory False/True) -> "
+    "generated value), then chains of up to 3 rounds: save (to a fresh path, over a file holding another sketch of the same shape and totals, or over a file that is not a sketch) -> load (class loader, or countmin.load for count-min; shared_memory False/True) -> "
     "compare -> a fresh second copy merges the original -> common continuation on original and copy (same planted draws for log types) -> "
     "compare -> continue from the copy. Oracle: same class; equal public parameters (width, depth, max_count, num_reserved, base, p, seed, phi, "
     "max_key_len); equal tables, n_added(), n_records(); equal queries for every universe key (heavy hitters: query(inf,t) for t in {None,0,1} and "
@@ -77,8 +77,21 @@ def cases(draw):
 
     rounds = draw(st.integers(1, 3))
     hist = [[step() for _ in range(draw(st.integers(0, 6)))] for _ in range(rounds + 1)]
-    loads = [{"via": draw(st.sampled_from(["class", "module"])), "shm": draw(st.sampled_from([False, False, True]))} for _ in range(rounds)]
+    # "pre": what already sits at the target path when save() is called (a checkpoint file is usually overwritten):
+    # nothing, a sketch of the same shape with the same totals but other keys ("twin"), or bytes that are not a sketch
+    loads = [{"via": draw(st.sampled_from(["class", "module"])), "shm": draw(st.sampled_from([False, False, True])), "pre": draw(st.sampled_from([None, None, "twin", "twin", "garbage"]))} for _ in range(rounds)]
     return {"cfg": cfg, "U": U, "hist": hist, "loads": loads, "n_records": draw(st.sampled_from([0, 0, 1, 7, 2**40]))}
+
+
+def remap(s, perm):
+    s = dict(s)
+    if "k" in s:
+        s["k"] = perm.get(s["k"], s["k"])
+    if "keys" in s:
+        s["keys"] = [perm.get(k, k) for k in s["keys"]]
+    if "items" in s:
+        s["items"] = [[perm.get(k, k), v] for k, v in s["items"]]
+    return s
 
 
 def do(sk, kind, s):
@@ -164,12 +177,26 @@ def run_case(case):
     tmp = tempfile.mkdtemp(prefix="vf_c10_")
     try:
         orig = sut(make_sketch, cfg)
+        applied = []
         for s in case["hist"][0]:
             do(orig, kind, s)
+            applied.append(s)
         if kind != "hll":
             orig.n_added_records[1] = np.uint64(case["n_records"])
         for r, ld in enumerate(case["loads"]):
             path = os.path.join(tmp, f"r{r}.npz")
+            if ld.get("pre") == "twin":
+                twin = sut(make_sketch, cfg)
+                perm = {k: U[-1 - j] for j, k in enumerate(U)}
+                for s in applied:
+                    do(twin, kind, remap(s, perm))
+                if kind != "hll":
+                    twin.n_added_records[1] = orig.n_added_records[1]
+                twin.save(path)
+                del twin
+            elif ld.get("pre") == "garbage":
+                with open(path, "wb") as f:
+                    f.write(b"PK\x03\x04 not a sketch" * 3)
             sut(orig.save, path)
             interfere(cfg)  # sketches of other configurations are built and used between save and load
             copy = load_via(kind, path, ld["via"], ld["shm"])
@@ -180,6 +207,7 @@ def run_case(case):
             for s in case["hist"][r + 1]:
                 do(orig, kind, s)
                 do(copy, kind, s)
+                applied.append(s)
             compare(orig, copy, kind, U, f"round {r} after a common continuation")
             del second
             orig = copy
